@@ -17,6 +17,13 @@ CHECKS = {
                      "from_rational return THE correctly rounded value (uniqueness proved), and x/0 raises. The model equals the code on a seeded bit-exact correspondence run; "
                      "the implementation output is additionally decided against an exact rational oracle.",
                 note=TB + "sqrt and fsum are tied by correspondence and decided by the exact oracle in this round; their theorems are in progress. API-level glue (operators, keyword parsing) is sampled."),
+    "C03": dict(category="proof", technique="Lean 4 theorems about the model of mpf_pow_int (directed binary exponentiation, reciprocal mode swap): side, faithful rounding, exactness, small powers correctly rounded + bit-exact correspondence",
+                text="Theorem C03_pow_int: for every finite canonical base, every integer exponent (any sign and size), every precision >= 1 and every mode the result of mpf_pow_int is canonical with at most prec bits, "
+                     "is never on the wrong side of the exact power in the four directed modes, is a faithful rounding (one of the two neighbours of the exact power, i.e. error below one unit in the last place) in nearest mode, "
+                     "and equals the exact power whenever that is representable. Proof by loop invariants over the binary-exponentiation loop (truncation direction, accumulated relative error (1+2^(1-wp))^n, exact table-driven bit counts incl. the carry "
+                     "case of upward truncation), a faithful-rounding lemma, and the reciprocal-mode argument for negative exponents. Small exact powers (n<=2, power-of-two base, bc*n<1000) are proved correctly rounded in all modes; 0**negative raises; specials by table. "
+                     "Correspondence: libmpf.mpf_pow_int and the public routes to it vs the compiled model, plus the exact rational decision of every clause on the implementation output.",
+                note=TB + "precision 0 (exact mode) is not covered by the statement (the code truncates in the loop regardless). The public routes (operators, mp.power, mpf_pow with integer exponent) are sampled."),
     "C05": dict(category="proof", technique="Lean 4 theorems: mpf_cmp = exact comparison; mpf_hash/mpc_hash = CPython's documented numeric hash + correspondence + law monitor",
                 text="Theorems: mpf_cmp/lt/le/gt/ge/eq agree with comparison of the exact rational values for all finite canonical operands (incl. the 5-bit subtraction fallback); nan unordered; "
                      "mpf_hash equals CPython's documented hash of the rational value for every exponent; mpc_hash (after the repair of defect D2) equals the documented complex hash; equal values have equal hashes. "
